@@ -115,7 +115,12 @@ func c10R1(c *Ctx) {
 	for _, fn := range fns {
 		inf := infos[fn]
 		name := FuncName(fn)
-		if why, ok := exempt[name]; ok {
+		why, ok := exempt[name]
+		if !ok && fn.Signature.Recv() != nil && typeName(fn.Signature.Recv().Type()) == "RepeatingGroup" {
+			// helpers of the group reader (same receiver type) share its exemption
+			why, ok = exempt["(*RepeatingGroup).Read"], true
+		}
+		if ok {
 			c.Note("%s exempt: %s", name, why)
 			continue
 		}
